@@ -73,7 +73,7 @@ def extra(rng, tier):
 def run(tier, seed):
     res, _, _ = run_server_property(
         "C08", ["C08.ok"], tier, seed, extra_cases=extra, n_random=(1500 if tier == "quick" else 20000),
-        nontrivial=lambda c, e, o: any(a[0] in ("h", "mw", "up") for acts, _ in o for a in acts),
+        nontrivial=lambda c, e, o: any(a[0] in ("h", "mw", "up", "upc") for acts, _ in o for a in acts),
         rule="request lines from the URI grammar (must-accept), its corruptions (must-reject), raw strings, lengths 1019..1030 with/without CRLF, structural corruptions of lines of 900..1024 bytes; "
              "non-trivial = distinct schedule whose request reached the chain or a handler")
     return res
